@@ -176,13 +176,16 @@ def rule_usage(run):
     # applied to all contexts
     loops = [l for l in init.node.body if isinstance(l, ast.For)]
     ctx_loop = [l for l in loops if P.T(l.iter) == "self.all_contexts()"]
-    ok = bool(ctx_loop) and "current_ctx = " + ctx_loop[0].target.id in P.T(ctx_loop[0]) and f"{ctx_loop[0].target.id}.visit_objects(check_usage)" in P.T(ctx_loop[0])
+    # the variable that names the current driver: whatever check_usage stores in written_in[...]
+    kvs = [dotted(a.value) for a in ast.walk(cu.node) if isinstance(a, ast.Assign) and isinstance(a.targets[0], ast.Subscript) and dotted(a.targets[0].value) == "written_in" and isinstance(a.value, ast.Name)]
+    kv = kvs[0] if kvs else "current_ctx"
+    ok = bool(ctx_loop) and f"{kv} = " + ctx_loop[0].target.id in src(ctx_loop[0]) and f"{ctx_loop[0].target.id}.visit_objects(check_usage)" in P.T(ctx_loop[0])
     if ctx_loop:
         cv = ctx_loop[0].target.id
         lt = src(ctx_loop[0])
         # the always block of a sequential context is emitted OUTSIDE the process: it is a driver of its own
-        own = f"current_ctx = {cv}._always_expr" in lt and f"{cv}._always_expr.visit_objects(check_usage)" in lt and f"Context.visit_objects({cv}, check_usage)" in lt
-        first = lt.find(f"current_ctx = {cv}._always_expr") < lt.find(f"{cv}._always_expr.visit_objects(check_usage)") < lt.find(f"current_ctx = {cv}\n") if own else False
+        own = f"{kv} = {cv}._always_expr" in lt and f"{cv}._always_expr.visit_objects(check_usage)" in lt and f"Context.visit_objects({cv}, check_usage)" in lt
+        first = lt.find(f"{kv} = {cv}._always_expr") < lt.find(f"{cv}._always_expr.visit_objects(check_usage)") < lt.find(f"{kv} = {cv}\n") if own else False
         run.ob(own and first, "EntityTemplate.__init__", file=rp.rel, line=ctx_loop[0].lineno, detail="always-block-is-a-driver", expected="the always block is visited under its own key (current_ctx = ctx._always_expr), the body under ctx", found="ok" if own and first else "the always block is checked as part of its sequential context")
     run.ob(ok, "EntityTemplate.__init__", file=rp.rel, line=init.node.lineno, detail="all-contexts", expected="for ctx in self.all_contexts(): current_ctx = ctx; ctx.visit_objects(check_usage)", found="ok" if ok else "changed")
     blk_loop = [l for l in loops if P.T(l.iter) == "self.all_blocks()"]
